@@ -11,11 +11,11 @@ PID = "C12"
 IMPORTS = "From GS Require Import model.TracerQ."
 
 
-def new_builder(units=None, res=None, order="units-first", relative=False):
+def new_builder(units=None, res=None, order="units-first", relative=False, dp=5):
     from gscrib import GCodeBuilder
     from builder_lib import Recorder
     rec = Recorder()
-    g = GCodeBuilder(decimal_places=5, line_endings="\n")
+    g = GCodeBuilder(decimal_places=dp, line_endings="\n")
     g.add_writer(rec.writer)
     segs = []
 
@@ -386,11 +386,19 @@ def shapes_phase(run):
     found = False
     for s in shapes:
         cap_res(s)
-        g, segs = new_builder(units=s["units"], res=s["res"], order=s["order"], relative=s["relative"])
+        # the output precision is a formatting matter: the interpolation works on the configured resolution whatever it is
+        s["dp"] = run.rng.choice([5, 5, 5, 2, 0])
+        g, segs = new_builder(units=s["units"], res=s["res"], order=s["order"], relative=s["relative"], dp=s["dp"])
         res = g.state.resolution
         goto_start(g, s)
         del segs[:]
         rep = dict(kind="shape", shape={k: (list(v) if isinstance(v, tuple) else v) for k, v in s.items()}, state_resolution=res)
+        if abs(res - s["res"]) > 1e-9 * s["res"]:
+            # (a units switch leaves the number as it is, see DESIGN section 7: the configured value is the requested one)
+            found = True
+            run.violation("set_resolution(%.9g) on a builder with decimal_places=%d, units %s (%s): the resolution in force is %.9g"
+                          % (s["res"], s["dp"], s["units"], s["order"], res), rep)
+            continue
         try:
             trace_shape(g, s)
         except Exception as e:
